@@ -1,8 +1,9 @@
 // c03 harness.
-//   sel 1   real scheduling cycles (allocate / backfill with the real gang, priority and proportion
-//           plugins) against the action skeleton model; law selector 103 (shared cycle harness).
-//   sel 2/3 queue votes of the capacity (flat, hierarchical) and proportion plugins against
-//           coq/theories/C03/CapacityModel.v; laws 110-114 (votes.go, gen.go).
+//
+//	sel 1   real scheduling cycles (allocate / backfill with the real gang, priority and proportion
+//	        plugins) against the action skeleton model; law selector 103 (shared cycle harness).
+//	sel 2/3 queue votes of the capacity (flat, hierarchical) and proportion plugins against
+//	        coq/theories/C03/CapacityModel.v; laws 110-114 (votes.go, gen.go).
 package main
 
 import (
